@@ -352,9 +352,9 @@ def _encode_ep(ep, varprops, lnk):
     if lnk:
         attributes['cfrom'] = str(ep.cfrom)
         attributes['cto'] = str(ep.cto)
-        if ep.surface:
+        if ep.surface is not None:
             attributes['surface'] = ep.surface
-        if ep.base:
+        if ep.base is not None:
             attributes['base'] = ep.base
     e = etree.Element('ep', attrib=attributes)
     e.append(_encode_pred(ep.predicate))
